@@ -145,9 +145,16 @@ def run(prop, mod, tier, seed, replay, log, broken, workdir, t0):
     mism = [c for c in cases if c.model != c.impl]
     _sig = getattr(mod, "signature", lambda c: "unclassified")
 
+    # where the model carries a recorded defect faithfully (C08), a failing case only is that finding when the
+    # implementation still behaves exactly as recorded; a different misbehaviour on the same class of input is new
+    strict_known = getattr(mod, "KNOWN_MUST_MATCH_MODEL", False)
+
     def sig(c):
         s = _sig(c) or "unclassified"
-        return s[5:] if s.startswith("fail:") else s
+        s = s[5:] if s.startswith("fail:") else s
+        if strict_known and s in known_sigs and c.model != c.impl:
+            s += "+not-as-recorded"
+        return s
     new_fails, known_hits = [], {}
     for c in fails:
         s = sig(c)
